@@ -8,7 +8,7 @@ RULE = ("inputs: generated token streams (keys/operators/values/braces, quoted s
         "just-sufficient size (largest atom + look-ahead) to larger than the input, plus undersized caps; fresh and recycled buffers. "
         "non-trivial = at least one refill happened inside the input (schedule shorter than the input or cap smaller than it) and a token was produced")
 TRUSTED = ["std::io::Read contract is modelled by BufWin.rd_read (schedule of Data n | Fail events)"]
-ASSUMPTIONS = ["buffer 'can hold the longest token' is decided by props/textgen.atoms (largest atom + 2 bytes of look-ahead)"]
+ASSUMPTIONS = ["'the buffer can hold the longest token' is TextRef.need (Coq, extracted; proved tight by C07_stream_eq_slice + C07_stream_full); inputs with a byte >= 256 do not occur"]
 
 
 def sched_str(s):
@@ -115,6 +115,13 @@ def run(ctx):
         need = tg.atoms(inp)
         for comp in tg.compositions(len(inp)):
             add(inp, max(need, len(inp) + 1), comp)
+    import vlib
+    need_out = vlib.run_model(["tr.need\t%s" % hexs(i) for i in inputs])
+    exact_need = {}
+    for inp, o in zip(inputs, need_out):
+        if o.isdigit():
+            exact_need[inp] = int(o)
+    ctx.count("exact_need_computed", len(exact_need))
     s_impl, _ = ctx.correspond("slice", slice_cases, nontrivial=lambda c, i: " " in i)
     sbase = len(s_impl) - len(slice_cases)
     smap = {}
@@ -130,7 +137,14 @@ def run(ctx):
     t_impl, _ = ctx.correspond("stream", cases, nontrivial=nt)
     tbase = len(t_impl) - len(cases)
     for k, (inp, cap, sched) in enumerate(meta):
-        judge(ctx, inp, tg.atoms(inp), cap, sched_str(sched), smap[inp], t_impl[tbase + k], ["tr.slice\t%s" % hexs(inp), cases[k]])
+        # threshold: TextRef.need (Coq, proved tight: cap >= need => equal to the slice reader; 0 < cap < need => a prefix of the
+        # slice tokens followed by BufferFull); props/textgen.atoms is only used to choose interesting capacities
+        nd = exact_need.get(inp, tg.atoms(inp))
+        judge(ctx, inp, nd, cap, sched_str(sched), smap[inp], t_impl[tbase + k], ["tr.slice\t%s" % hexs(inp), cases[k]])
+        if inp in exact_need and 0 < cap < nd:
+            T = split_out(t_impl[tbase + k])
+            if T and T[1] != "ERR:101":
+                ctx.fail("undersized-not-bufferfull", "on %r cap=%d < need %d the reader ended with %s instead of BufferFull" % (inp, cap, nd, T[1]), ["tr.slice\t%s" % hexs(inp), cases[k]], [smap[inp], t_impl[tbase + k]], "ERR:101")
     ctx.count("stream_cases", len(cases))
     shrink(ctx)
 
